@@ -805,27 +805,16 @@ func (w *world) finalPhase() {
 		return
 	}
 	electionTO := time.Duration(w.cfg.ElectionTick) * tickInterval
-	deadline := w.now() + 80*electionTO
+	deadline := w.now() + finalElectionTimeouts*electionTO
 	healedAt := w.now()
 	proposed := map[multiraft.SlotID]bool{}
 	converged := false
 	for iter := 0; iter < 60000 && w.now() < deadline; iter++ {
-		simkit.Wait()
-		w.invariant()
-		if r.Failed() || r.InfraErr != "" {
+		idle, ok := w.benignStep()
+		if !ok {
 			return
 		}
-		evs := w.pendingEvents()
-		if len(evs) > 0 {
-			e := evs[0]
-			r.Logf("f %s", e.key)
-			if e.park != nil {
-				w.sw.Release(e.park, decRelease)
-			} else {
-				w.deliver(e.msg, false)
-			}
-			// every event gets its own instant of the fake clock (the election jitter is a function of it)
-			time.Sleep(gridStep)
+		if !idle {
 			continue
 		}
 		// nothing in flight: one probe proposal per slot once a leader exists, then check convergence
@@ -856,6 +845,7 @@ func (w *world) finalPhase() {
 	if r.Failed() {
 		return
 	}
+	var progress map[multiraft.SlotID]map[int]string
 	if converged {
 		r.Probe("final.converged")
 		if w.now()-healedAt <= 10*electionTO {
@@ -863,6 +853,10 @@ func (w *world) finalPhase() {
 		}
 	} else {
 		r.Probe("final.not_converged")
+		progress = w.leaderProgress()
+		if r.Failed() || r.InfraErr != "" {
+			return
+		}
 	}
 	w.mu.Lock()
 	defer w.mu.Unlock()
@@ -887,12 +881,17 @@ func (w *world) finalPhase() {
 					return
 				}
 				if st.last() < idx {
-					if converged {
-						w.fail("ack-not-applied-after-heal", "", fmt.Sprintf("slot %d: n%d applied only up to %d; acknowledged proposal %q at index %d is missing after heal", m.id, i, st.last(), a.payload, idx))
-					} else {
-						w.fail("ack-not-applied-after-heal", "no-convergence", fmt.Sprintf("slot %d: %d election timeouts after the last fault n%d has applied only up to %d; acknowledged proposal %q at index %d is missing (leader now: n%d)",
-							m.id, 80, i, st.last(), a.payload, idx, w.leaderOfLocked(m.id)))
+					leader := w.leaderOf(m.id)
+					sig := "no-convergence"
+					if progress[m.id][i] == "StateSnapshot" {
+						// etcd raft keeps a follower paused in StateSnapshot until the application
+						// reports the snapshot outcome or the follower acknowledges it
+						sig = "follower-paused-in-snapshot-progress"
+					} else if leader == 0 {
+						sig = "no-leader"
 					}
+					w.fail("ack-not-applied-after-heal", sig, fmt.Sprintf("slot %d: %d election timeouts after the last fault n%d has applied only up to %d; acknowledged proposal %q at index %d is missing (leader now: n%d, leader's progress for n%d: %q)",
+						m.id, finalElectionTimeouts, i, st.last(), a.payload, idx, leader, i, progress[m.id][i]))
 					return
 				}
 			}
@@ -900,7 +899,102 @@ func (w *world) finalPhase() {
 	}
 }
 
-func (w *world) leaderOfLocked(slot multiraft.SlotID) int { return w.leaderOf(slot) }
+const finalElectionTimeouts = 40
+
+// benignStep performs one fault-free scheduling step: the oldest pending event
+// is released. idle reports that nothing was pending.
+func (w *world) benignStep() (idle bool, ok bool) {
+	simkit.Wait()
+	w.invariant()
+	if w.r.Failed() || w.r.InfraErr != "" {
+		return false, false
+	}
+	evs := w.pendingEvents()
+	if len(evs) == 0 {
+		return true, true
+	}
+	e := evs[0]
+	w.r.Logf("f %s", e.key)
+	if e.park != nil {
+		w.sw.Release(e.park, decRelease)
+	} else {
+		w.deliver(e.msg, false)
+	}
+	// every event gets its own instant of the fake clock (the election jitter is a function of it)
+	time.Sleep(gridStep)
+	return false, true
+}
+
+type progressResult struct {
+	slot   multiraft.SlotID
+	leader int
+	st     multiraft.Status
+	err    error
+}
+
+// leaderProgress asks every slot leader for a fresh full status (replication
+// progress per follower); used only to classify a run that did not converge.
+func (w *world) leaderProgress() map[multiraft.SlotID]map[int]string {
+	out := map[multiraft.SlotID]map[int]string{}
+	var results []progressResult
+	want := 0
+	for _, m := range w.slots {
+		l := w.leaderOf(m.id)
+		if l == 0 {
+			continue
+		}
+		want++
+		n, slot := w.nodes[l], m.id
+		ctx, cancel := context.WithTimeout(n.ctx, 2*time.Second)
+		go func() {
+			defer cancel()
+			st, err := n.rt.FreshStatus(ctx, slot)
+			w.mu.Lock()
+			results = append(results, progressResult{slot: slot, leader: l, st: st, err: err})
+			w.mu.Unlock()
+		}()
+	}
+	for i := 0; i < 5000; i++ {
+		w.mu.Lock()
+		got := len(results)
+		w.mu.Unlock()
+		if got >= want {
+			break
+		}
+		idle, ok := w.benignStep()
+		if !ok {
+			return out
+		}
+		if idle {
+			time.Sleep(time.Millisecond)
+		}
+	}
+	w.mu.Lock()
+	defer w.mu.Unlock()
+	sort.Slice(results, func(i, j int) bool { return results[i].slot < results[j].slot })
+	for _, pr := range results {
+		if pr.err != nil {
+			continue
+		}
+		mp := map[int]string{}
+		for id, p := range pr.st.Progress {
+			mp[int(id)] = p.State
+		}
+		out[pr.slot] = mp
+		keys := make([]int, 0, len(mp))
+		for k := range mp {
+			keys = append(keys, k)
+		}
+		sort.Ints(keys)
+		var sb strings.Builder
+		for _, k := range keys {
+			p := pr.st.Progress[multiraft.NodeID(k)]
+			fmt.Fprintf(&sb, " n%d:%s(match %d next %d)", k, p.State, p.Match, p.Next)
+		}
+		w.r.Logf("  progress s%d leader n%d term %d commit %d:%s", pr.slot, pr.leader, pr.st.Term, pr.st.CommitIndex, sb.String())
+	}
+	return out
+}
 
 // slotConverged: every replica's state machine has reached the highest index any replica applied.
 func (w *world) slotConverged(m *slotModel) bool {
